@@ -144,6 +144,8 @@ def one_case(ctx, prog, label="gen", explicit_wm=None):
     ]
     if ctx.tier == "quick":
         modes = [modes[0]] + rng.sample(modes[1:], 3)
+    if label != "replay" and rng.random() < 0.35:
+        result_wrappers(ctx, prog, model, [max(min(x, 1e12), -1e12) for x in xs], label)
     for mode in modes:
         case = {"program": prog, "mode": mode, "inferred": xs, "label": label, "explicit_wm": explicit_wm}
         nontrivial = n >= 2 and (any(x <= 0 for x in xs) or feats["places"] > n or mode != {"k": "means"})
@@ -263,6 +265,42 @@ def one_case(ctx, prog, label="gen", explicit_wm=None):
             ctx.disagree("C12.paths", case, new_paths[:6], ans["paths"][:6])
 
 
+def result_wrappers(ctx, prog, model, xs, label):
+    """Result.model_absolute / model_relative / model_bounded on ONE result object, asked one after the other with
+    the same number: each answer is the model a fresh result gives for that question alone"""
+    rng = ctx.rng
+
+    def make_result():
+        sample = af.Sample.from_lists(model=model, parameter_lists=[list(xs)], log_likelihood_list=[-1.0],
+                                      log_prior_list=[0.0], weight_list=[1.0])[0]
+        summary = af.SamplesSummary(max_log_likelihood_sample=sample, model=model, median_pdf_sample=sample)
+        return af.Result(samples_summary=summary)
+
+    def ask(res, how, w):
+        new = {"abs": res.model_absolute, "rel": res.model_relative, "bounded": res.model_bounded}[how](w)
+        return [(tuple(map(str, path)), readable(desc(pr))) for path, pr in new.path_priors_tuples]
+
+    w = rng.choice([0.5, 2.0, 0.25])
+    questions = [("abs", w), ("rel", w), ("bounded", w)]
+    rng.shuffle(questions)
+    questions = questions + questions[:1]
+    case = {"program": prog, "inferred": list(xs), "label": label, "result_questions": questions}
+    try:
+        shared = make_result()
+        for how, w_ in questions:
+            alone = ask(make_result(), how, w_)
+            got = ask(shared, how, w_)
+            ctx.hit("result-wrapper:" + how)
+            if got != alone:
+                diff = [(a, b) for a, b in zip(got, alone) if a != b][:2]
+                ctx.fail("C12-result-answer-depends-on-earlier-question",
+                         f"result.model_{how} on a result that was asked for another kind of passed model before differs from the same "
+                         "question put to a fresh result", case, {"asked": how, "differs": diff})
+                return
+    except Exception as e:  # noqa: whether passing itself succeeds is checked by the modes above
+        ctx.hit("result-wrapper-raised:" + type(e).__name__)
+
+
 def classify_raise(model, mode, xs, e):
     if mode["k"] == "with_limits" and any(type(p).__name__ == "LogGaussianPrior" for p in model.priors):
         return "C12-with-limits-loggaussian"
@@ -347,4 +385,7 @@ def run(ctx):
 
 def replay(ctx, payload):
     case = payload.get("case") or payload.get("disagreements", [{}])[0].get("case")
+    if "result_questions" in case:
+        model = gen_comp.run_program(case["program"])["root"]
+        return result_wrappers(ctx, case["program"], model, case["inferred"], "replay")
     one_case(ctx, case["program"], label="replay", explicit_wm=case.get("explicit_wm"))
